@@ -49,6 +49,16 @@ func (m *Metrics) Write(w io.Writer) error {
 	if err := write("Weight %s", strings.Join(strings.Split(m.FullName, " ")[1:], " ")); err != nil {
 		return err
 	}
+	if m.Version != "" {
+		if err := write("Version %s", m.Version); err != nil {
+			return err
+		}
+	}
+	if m.Notice != "" {
+		if err := write("Notice %s", m.Notice); err != nil {
+			return err
+		}
+	}
 
 	bbox := m.FontBBoxPDF()
 	llx := int(math.Floor(bbox.LLx))
